@@ -23,6 +23,12 @@ RULE = ("(a) random pairs of consistently typed feature structures (atomic featu
         "model and the ground-meaning oracle. Non-trivial: structures with >=3 leaves / grammars with >=3 productions.")
 LEVEL = "proof"
 THEOREMS = ["Pfl.Earley.earley_sound",
+            "Pfl.Earley.earley_complete",
+            "Pfl.Earley.earley_exact",
+            "Pfl.Earley.earley_complete_harness",
+            "Pfl.Earley.earley_complete_plain",
+            "Pfl.Earley.instNamesInjective_harness",
+            "Pfl.Earley.earley_complete_needs_injective_names",
             "Pfl.FsDag.unifySFS_ok",
             "Pfl.FsDag.unifySFS_conflict",
             "Pfl.FsDag.unifySFS_terminates",
